@@ -1,1 +1,24 @@
 import Reamber.Props.C09
+
+#print axioms Reamber.Pipeline.closeTo_sound
+#print axioms Reamber.Pipeline.matchUp_zipped
+#print axioms Reamber.Pipeline.removeFirst_perm
+#print axioms Reamber.Pipeline.closeTime_ms_trunc
+#print axioms Reamber.Pipeline.sm_keys_roundtrip
+#print axioms Reamber.Pipeline.sm_supported_exactly
+#print axioms Reamber.Pipeline.sm_unsupported_refused
+#print axioms Reamber.Pipeline.qua_mode_roundtrip
+#print axioms Reamber.Pipeline.qua_supported_exactly
+#print axioms Reamber.Pipeline.qua_modes_roundtrip
+#print axioms Reamber.Pipeline.bms_layout_columns
+#print axioms Reamber.Pipeline.sm_offset_rules
+#print axioms Reamber.Pipeline.osu_circle_size_rules
+#print axioms Reamber.Pipeline.qua_mode_rules
+#print axioms Reamber.Pipeline.sm_chart_type_rules
+#print axioms Reamber.Pipeline.offset_established_first
+#print axioms Reamber.Pipeline.offset_established_zero
+#print axioms Reamber.Pipeline.offset_established_min
+#print axioms Reamber.Pipeline.quaToSM_offset_counterexample
+#print axioms Reamber.Pipeline.o2j_first_tempo_at_zero
+#print axioms Reamber.Pipeline.content_carried
+#print axioms Reamber.Pipeline.into_qua_objects_partial
